@@ -1387,7 +1387,13 @@ class Twist2(SMTwist):
         if base.isscalar(theta):
             return SE2(base.trexp2(self.S * theta))
         else:
-            return SE2([base.trexp2(self.S * t) for t in theta])
+            # theta is a vector, same rules as Twist3.exp
+            if len(self) == 1:
+                return SE2([base.trexp2(self.S * t) for t in theta])
+            elif len(self) == len(theta):
+                return SE2([base.trexp2(S * t) for S, t in zip(self.data, theta)])
+            else:
+                raise ValueError('length of twist and theta not consistent')
 
     @property
     def unit(self):
